@@ -1,0 +1,25 @@
+//go:build verif
+
+package node
+
+import (
+	"github.com/rigochain/rigo-go/ctrlers/account"
+	"github.com/rigochain/rigo-go/ctrlers/gov"
+	"github.com/rigochain/rigo-go/ctrlers/stake"
+	"github.com/rigochain/rigo-go/ctrlers/vm/evm"
+)
+
+// VerifCtrlers exposes the controllers to the verification harness (read-only use).
+func (ctrler *RigoApp) VerifCtrlers() (*account.AcctCtrler, *stake.StakeCtrler, *gov.GovCtrler, *evm.EVMCtrler) {
+	return ctrler.acctCtrler, ctrler.stakeCtrler, ctrler.govCtrler, ctrler.vmCtrler
+}
+
+// VerifLastHeight returns the height of the last committed block as the application sees it.
+func (ctrler *RigoApp) VerifLastHeight() int64 {
+	ctrler.mtx.Lock()
+	defer ctrler.mtx.Unlock()
+	if ctrler.lastBlockCtx == nil {
+		return 0
+	}
+	return ctrler.lastBlockCtx.Height()
+}
